@@ -178,11 +178,31 @@ theorem none_only_by_marker (par : Parser) (hs : List Hunk) (par' : Parser)
 
 /-- **the final newline of the patch text does not matter**: `parse_unified_patch` reads the same hunks (or fails in the same
     way) from a text and from that text without the newline of its last line (`c`: the content of the last line, `ls`: the
-    lines before it).  (Before the fix the last line of such a text came back as a line without newline.) -/
-theorem unified_final_newline_irrelevant (ls : List Line) (c : Bytes) (n : Nat) (hls : ∀ l ∈ ls, l.newline ≠ .none) :
+    lines before it).  (Before the fix the last line of such a text came back as a line without newline.)
+    `hcr` (with the model, D85): the text without that newline does not end in a bare CR — that CR is what is left of a
+    CR LF, not a byte of the line: `unified_final_cr_is_crlf`. -/
+theorem unified_final_newline_irrelevant (ls : List Line) (c : Bytes) (n : Nat) (hls : ∀ l ∈ ls, l.newline ≠ .none)
+    (hcr : c.getLast? ≠ some CR) :
     (parseUnifiedBody ⟨⟨ls ++ [⟨c, .none⟩], false, false⟩, n⟩).map (·.1)
       = (parseUnifiedBody ⟨⟨ls ++ [⟨c, .lf⟩], false, false⟩, n⟩).map (·.1) := by
-  exact Unified.parseUnifiedBody_final_newline ls c n hls
+  exact Unified.parseUnifiedBody_final_newline ls c n hls hcr
+
+/-- NEW (D85): **a CR at the very end of the patch text is what is left of a CR LF**: `parse_unified_patch` reads the same hunks
+    (or fails in the same way) from a text that ends in a bare CR and from that text with the LF after it.  Together with
+    `unified_final_newline_irrelevant`: the LF of the last line of the patch text never matters. -/
+theorem unified_final_cr_is_crlf (ls : List Line) (c : Bytes) (n : Nat) (hls : ∀ l ∈ ls, l.newline ≠ .none) :
+    (parseUnifiedBody ⟨⟨ls ++ [⟨c ++ [CR], .none⟩], false, false⟩, n⟩).map (·.1)
+      = (parseUnifiedBody ⟨⟨ls ++ [⟨c, .crlf⟩], false, false⟩, n⟩).map (·.1) := by
+  exact Unified.parseUnifiedBody_final_cr ls c n hls
+
+-- why `unified_final_newline_irrelevant` needs `hcr`: `@@ -0,0 +1 @@` / `+a CR`, the newline of the last line missing, is read
+-- as the added line `a` + CR LF; with the last line as `+a CR` + LF (a line the reader never makes, C14 `splitLines_lf_noCR`)
+-- the added line is `a CR` + LF
+#guard (match parseUnifiedBody ⟨⟨[⟨str "@@ -0,0 +1 @@", .lf⟩, ⟨[PLUS, 97, CR], .none⟩], false, false⟩, 1⟩,
+              parseUnifiedBody ⟨⟨[⟨str "@@ -0,0 +1 @@", .lf⟩, ⟨[PLUS, 97, CR], .lf⟩], false, false⟩, 1⟩ with
+  | .ok (h1, _), .ok (h2, _) =>
+    h1 == [⟨⟨0, 0⟩, ⟨1, 1⟩, [⟨PLUS, ⟨[97], .crlf⟩⟩]⟩] && h2 == [⟨⟨0, 0⟩, ⟨1, 1⟩, [⟨PLUS, ⟨[97, CR], .lf⟩⟩]⟩]
+  | _, _ => false)
 
 /-- the reject writer's format choice: unified when asked for, or by default for unified and git input; context otherwise -/
 theorem reject_format_choice (fmt : RejectFormat) (pf : Format) :
